@@ -408,6 +408,10 @@ func __sentN[T any](ch chan<- T) int             { return 0 }
 func __sentAt[T any](ch chan<- T, i int) T       { var z T; return z }
 func __recvN[T any](ch <-chan T) int             { return 0 }
 func __recvAt[T any](ch <-chan T, i int) T       { var z T; return z }
+func __sentStamp[T any](ch chan<- T, i int) int  { return 0 }
+func __neverClosed[T any](ch <-chan T) bool      { return true }
+func __recvTotal[T any](ch <-chan T) int         { return 0 }
+func __recvTotalAt[T any](ch <-chan T, i int) T  { var z T; return z }
 func __closed[T any](ch chan<- T) bool           { return false }
 func __drained[T any](ch <-chan T) bool { return false }
 func __held(l any) bool                          { return true }
@@ -593,7 +597,7 @@ func splitTop(s string, sep byte) []string {
 
 var (
 	oldRe    = regexp.MustCompile(`\bold\(`)
-	forallRe = regexp.MustCompile(`\b(forall|forall2|forall3|exists|exists2|ite|visited|mapAt|mapHas|witness|countRecv|countIn|distinctRefs|allocatedRef|sentN|sentAt|recvN|recvAt|closed|drained|held|rheld|fresh|mapEq|sameElems|sameArray|sameSlice|allocatedElemsKept|allocated|arrayAllocated|same|nilSlice|disjoint|elemsUnchangedExcept|elemsUnchangedExcept2|spawnN|spawnArg|spawnIs|callNOf|callRetOf|callResOf\[[A-Za-z0-9_.*\[\]]+\]|callRecvOf\[[A-Za-z0-9_.*\[\]]+\]|callStrOf|libFailN|fileClosed|callArg2Of\[[A-Za-z0-9_.*\[\]]+\]|callArgOf\[[A-Za-z0-9_.*\[\]]+\]|callN|callIs|callRet|decoded\[[A-Za-z0-9_.*\[\]]+\]|decodeOK\[[A-Za-z0-9_.*\[\]]+\]|nextDecoded\[[A-Za-z0-9_.*\[\]]+\]|nextDecodeOK\[[A-Za-z0-9_.*\[\]]+\]|logN|logAt\[[A-Za-z0-9_.*\[\]]+\])\(`)
+	forallRe = regexp.MustCompile(`\b(forall|forall2|forall3|exists|exists2|ite|visited|mapAt|mapHas|witness|countRecv|countIn|distinctRefs|allocatedRef|sentN|sentAt|sentStamp|neverClosed|recvN|recvAt|recvTotalAt|recvTotal|closed|drained|held|rheld|fresh|mapEq|sameElems|sameArray|sameSlice|allocatedElemsKept|allocated|arrayAllocated|same|nilSlice|disjoint|elemsUnchangedExcept|elemsUnchangedExcept2|spawnN|spawnArg|spawnIs|callNOf|callRetOf|callResOf\[[A-Za-z0-9_.*\[\]]+\]|callRecvOf\[[A-Za-z0-9_.*\[\]]+\]|callStrOf|libFailN|fileClosed|callArg2Of\[[A-Za-z0-9_.*\[\]]+\]|callArgOf\[[A-Za-z0-9_.*\[\]]+\]|callN|callIs|callRet|decoded\[[A-Za-z0-9_.*\[\]]+\]|decodeOK\[[A-Za-z0-9_.*\[\]]+\]|nextDecoded\[[A-Za-z0-9_.*\[\]]+\]|nextDecodeOK\[[A-Za-z0-9_.*\[\]]+\]|logN|logAt\[[A-Za-z0-9_.*\[\]]+\])\(`)
 	assertRe = regexp.MustCompile(`\bassert\(`)
 )
 
